@@ -502,7 +502,8 @@ def h_rewrite(ch: Chooser, vec: list, maxf: int, nrewrites: int, seed: str | Non
                     got = call(parse_with, ctx, handler, data, model.root, extra, workdir, route)
                 c = {**case, "handler": hname, "route": route}
                 kinds = "+".join(sorted({x[0] for x in chosen})) or "none"
-                if hname == "native" and extra.get("xinclude") and prefixed_values(original) and (
+                ns_dependent_values = prefixed_values(original) or ('xmlns="' in original and any("qname" in f.tags for f in spec.fields))
+                if hname == "native" and extra.get("xinclude") and ns_dependent_values and (
                         got[0] == "exc" and "not a valid" in str(got[1]) or got[0] == "exc" and "Unknown namespace prefix" in str(got[1])
                         or got[0] == "ok" and not same(got[1], base[1])):
                     return dict(ok=False, case=c, bucket="KF/native-handler-xinclude-loses-prefix-bindings-of-values",
